@@ -98,7 +98,7 @@ def scan_forbidden():
     return hits
 
 
-def audit(pid, build: Build):
+def audit(pid, build: Build, tier="quick"):
     """returns (obligations, discharged, problems, details)"""
     reg = load_registry()
     entries = reg.get(pid, [])
@@ -144,10 +144,18 @@ def audit(pid, build: Build):
                 problems.append({"theorem": e["name"], "problem": "statement not in theorems.lock"})
                 continue
             details.append({"theorem": e["name"], "axioms": j["axioms"], "statement": j["statement"][:300]})
+    if tier == "thorough" and ok_entries:
+        # independent re-check of the compiled modules
+        mods = sorted({e["module"] for e in ok_entries})
+        rc, out = sh(["lake", "env", "leanchecker"] + mods, cwd=LEAN, timeout=3000)
+        if rc != 0:
+            problems.append({"theorem": "*", "problem": "leanchecker rejects the compiled modules", "output": out[-600:]})
+        else:
+            details.append({"theorem": "*leanchecker*", "axioms": [], "statement": "leanchecker accepted " + " ".join(mods)})
     forb = scan_forbidden()
     for h in forb:
         problems.append({"theorem": "*", "problem": "forbidden token in Lean sources: " + h})
-    return len(entries), len(details), problems, details
+    return len(entries), len([d for d in details if d["theorem"] != "*leanchecker*"]), problems, details
 
 
 class Ctx:
@@ -239,17 +247,20 @@ def main():
     if args.replay:
         ctx = Ctx(pid, args.tier, seed)
         return mod.replay(ctx, json.load(open(args.replay)))
-    obligations, discharged, problems, details = audit(pid, build)
+    obligations, discharged, problems, details = audit(pid, build, args.tier)
     ctx = Ctx(pid, args.tier, seed)
     if problems:
         # broken obligation: spend more on the failing-input search (DESIGN §5.3)
         ctx.budget *= 2
     try:
         mod.run(ctx)
-    except Exception:  # noqa: BLE001
+    except Exception as e:  # noqa: BLE001
+        # The harness runs cleanly on the tree it was written against; if the code's behaviour has
+        # moved so far that the harness itself fails, the correspondence no longer checks (§5.3).
+        # Violations found before the failure are still reported.
         traceback.print_exc()
-        print("INFRASTRUCTURE: check module crashed")
-        return 2
+        ctx.disagreements.append({"op": "harness-exception", "input": None, "code": f"{type(e).__name__}: {e}"[:500],
+                                  "model": traceback.format_exc()[-1500:]})
     findings = load_findings()
     import findings as fmod
 
